@@ -9,12 +9,13 @@ PROP = {
         "Multi.C06.reextent_noop",
         "Multi.C06.reextent_noop_pool",
         "Multi.C06.reextent_moved_law",
-        "Multi.C06.reextent_law_partial",
-        "Multi.C06.reextent_fresh_block",
+        "Multi.C06.reextent_law_values",
+        "Multi.C06.reextent_law",
         "Multi.C06.clear_empty",
         "Multi.C06.reshape_flat",
         "Multi.C06.assign_exact",
         "Multi.C06.assign_range_exact",
+        "Multi.C06.assign_list_exact",
     ],
     "harnesses": [vc.value_harness(["int+c06", "str+c06", "int+c06+full", "str+c06+full"], 4000, 160000)],
     "hooks": ["compile_probes", "op_histogram"],
@@ -25,8 +26,8 @@ PROP = {
     "assumptions": ["index arithmetic does not overflow ptrdiff_t", "std::allocator (allocator identity / propagation: C10)", "no exception is thrown (C09)",
                     "assignment from a view that aliases the destination is excluded (README: undefined)"],
     "rule": vc.VALUE_RULE,
-    "level_text": "Theorems (all D >= 1, all old/new extents incl. empty and non-zero index bases): every reextent overload yields an array built for x (extents collapse x, Π sizes elements); reextent to the current extents is the identity on heap, block and layout (storage, iterators, views stay valid); the rvalue overload value-initialises everything; clear / A = {} leave an empty valid array; reshape keeps the flat element sequence and the block; assign(extensions, v) and construction from a range / nested list produce exactly the requested contents; all of them leave every other array's value alone. The element part of the lvalue reextent law (common part kept, rest = fill) is stated and reduced to the slice-to-slice copy (reextent_law_partial) and checked on every reextent of the differential run against the reference model inside the harness.",
-    "level_note": "Trusted: Lean kernel (+propext, Classical.choice, Quot.sound); the hand transcription MultiModel/Owning.lean (the code AFTER the fix: commits recorded in findings/C06.json), validated by the differential run (C06 operation weights: reextent x3, clear, reshape, assign x3 interleaved with the C04 operations); Int for ptrdiff_t. Partial: reextent_law for the lvalue overloads (element part) and assign(first,last) / operator=(initializer_list) in place are validated by the run, not proved.",
+    "level_text": "Theorems (all D >= 1, all old/new extents incl. empty and non-zero index bases, any prior state, any element type): reextent_law - after reextent(x) / reextent(x, v) the array reports extents x (collapsed), every element whose index tuple lies in both the old and the new extents keeps its value, every other element equals the fill value (value-initialised, or indeterminate for a trivially default constructible T, without fill), the array is valid in a block no other array owns and no other array changes; reextent to the current extents is the identity on heap, block and layout (storage, iterators, views stay valid); the rvalue overload value-initialises everything; clear / A = {} leave an empty valid array; reshape keeps the flat element sequence and the block; assign(extensions, v), assign(first,last) and assignment from an initializer list (in place or not) produce exactly the requested contents. No partial theorem remains for D >= 1.",
+    "level_note": "Trusted: Lean kernel (+propext, Classical.choice, Quot.sound); the hand transcription MultiModel/Owning.lean (the code AFTER the fix: commits recorded in findings/C06.json), validated by the differential run (C06 operation weights: reextent x3, clear, reshape, assign x3 interleaved with the C04 operations) and the reference model inside the harness; Int for ptrdiff_t. D = 0 arrays (reextent is a no-op there) are covered by the run only.",
 }
 
 
